@@ -3,9 +3,12 @@
 What is PROVED (Lean, Props/C20.lean): the string guards of valuerep.py (decision logic and regular
 expressions regenerated from the source, tie T) accept only values valid for their VR; UID.from_uuid /
 UID() yield valid UIDs for every 128-bit value / every value pydicom can draw; the copy-or-alias
-data flow of every converter and of the segmentation constructor's per-plane array path, extracted
-from the current AST (tie T), never writes a cell of an input unless in-place conversion was asked,
-returns a fresh object with copy=True and the same object with copy=False.
+data flow of every converter, every constructor and the segmentation constructor's per-plane array path,
+extracted from the current AST (tie T): an alias analysis, proved sound for ALL programs of the extracted
+language against a store semantics (any world of the caller incl. shared / nested arguments), accepts every
+one of them - so no run writes a cell of the caller unless in-place conversion was asked, copy=True returns a
+newly allocated object and copy=False the very object passed in; what a guard accepts, pydicom's own rule
+table (regenerated from the installed pydicom) accepts.
 
 What is only SUPPORTED by this correspondence (never a theorem; pydicom's writer and numpy cannot be
 modelled): input snapshots before/after over all public constructors and converters below, strict
@@ -48,7 +51,8 @@ ASSUMPTIONS = [
     'alias-flow extraction (docs/C20.md lists every rule): x.f / x[...] / reshape are views that may also denote what was stored '
     'there earlier (labelled links), astype / arithmetic / comparisons / deepcopy / unknown lower-case calls are fresh objects, '
     'Capitalised calls keep references to their arguments, attribute / item assignment, mutating methods and augmented '
-    'assignment write, copy=False converter calls write deeply; loops and comprehension bodies run under an opaque condition; '
+    'assignment write, numpy out= arguments are written and returned, external methods called with copy=False / inplace=True return '
+    '(and write) their receiver, copy=False converter calls write deeply; loops and comprehension bodies run under an opaque condition; '
     'constructors with more than 2^5 paths have the arms of their branches merged; highdicom-internal callees are inlined '
     '(depth 4; an internal callee that is handed a reference and is not inlined puts the entry on the skipped list); EXTERNAL '
     'callees (pydicom, numpy, builtins, enums; listed per entry in Generated/T20*.lean) are assumed not to write their '
@@ -56,6 +60,13 @@ ASSUMPTIONS = [
     'Sequence assigned to an attribute are both treated as aliased (checked by the argument snapshots of every generated call '
     'and, per converter, by comparing the observed same-object / altered-argument behaviour with what the program allows)',
     'attribute VRs at the guard sites are those of the pydicom data dictionary',
+    'pydicom rule table: MAX_VALUE_LEN / VALIDATORS / the CS regex are regenerated from the installed pydicom; the few lines that '
+    'interpret them (validate_vr_length, validate_regex) are hand-written after the source (shape checked by the translator) and '
+    'compared with pydicom.valuerep.validate_value on every string of the guard stream',
+    'required attributes: the type 1 / type 2 check of written files uses the reduced attribute table of the shim '
+    '(harness/hd_env.py), mandatory modules only, conditional attributes not looked at',
+    'generator: big-endian arrays are drawn for every array argument; constructors that test `dtype in (np.uint8, ...)` refuse '
+    'them (visible as refused:* in the histograms), float arrays go through',
     'write / read-back clauses: pydicom writer and validator are exercised, not modelled (support only)',
 ]
 MODELLED_NOT_VERIFIED = ['pydicom file writer / reader / value validation', 'copy.deepcopy', 'numpy view/copy semantics',
